@@ -65,6 +65,18 @@ func runHist(c *caseT) string {
 			if op.CfgRef > 0 && cfgs[op.CfgRef-1] != nil {
 				cfgp = cfgs[op.CfgRef-1]
 				rec = cfgRecs[op.CfgRef-1]
+			} else if op.CopyOf > 0 && cfgs[op.CopyOf-1] != nil {
+				// a Config VALUE copied from an earlier one (`derived := base`), then given further functions: Configs are values,
+				// registering on the copy must not register on the original
+				cfg := *cfgs[op.CopyOf-1]
+				rec = cfgRecs[op.CopyOf-1]
+				for _, name := range op.AddFilters {
+					cfg.SetFilterFunction(name, filterFunc(name, rec))
+				}
+				for _, name := range op.AddAggs {
+					cfg.SetAggregateFunction(name, aggFunc(name, rec))
+				}
+				cfgp = &cfg
 			} else if !op.NoCfg {
 				cfg := makeConfig(op.Filters, op.Aggs, op.Acc, rec)
 				if op.AllFail {
